@@ -69,6 +69,11 @@ def find_entry(entries, isa, mnemonic, kinds, wildcard_pos=None):
     return None
 
 
+def _ls(ld, st):
+    return {(True, True): "read and written", (True, False): "only read",
+            (False, True): "only written", (False, False): "neither read nor written"}[(ld, st)]
+
+
 def case(item):
     arch, vi, mt = item
     text_t, mpos, ld, st = _VOC[vi]
@@ -122,7 +127,17 @@ def case(item):
         is_ld = any(type(o).__name__ == "MemoryOperand" for o in sd["source"] + sd["src_dst"])
         is_st = any(type(o).__name__ == "MemoryOperand" for o in sd["destination"] + sd["src_dst"])
         if (is_ld, is_st) != (ld, st):
-            out["status"] = "roles-differ"   # ISA roles are C03's subject, not checked here
+            # without an ISA entry the default rule decides whether the operand is loaded or
+            # stored (C03 owns that); with one, the memory operand of these instructions has the
+            # architectural role, otherwise the composition lacks the load or the store part
+            from mc.checks import isa_audit
+            if isa_audit.db_status(sem, ins)[0] == "db":
+                out["n"] = 1
+                out["status"] = "composed"
+                out["bad"].append(("roles", "%r: the memory operand is %s but is analysed as %s"
+                                   % (text, _ls(ld, st), _ls(is_ld, is_st))))
+                return item, out
+            out["status"] = "roles-differ"
             ld_, st_ = is_ld, is_st
         else:
             ld_, st_ = ld, st
